@@ -5,19 +5,22 @@ from .mir import callee, callee_matches, Prov
 from .ctx import where_of
 
 EXPLANATION = (
-    "Abstract interpretation of the loop-free numeric code in values.rs: (contagion) the 3x3 promotion table of "
-    "upcast_oprands is the lattice join Integer < Rational < Real with every payload in its place, and the result-kind "
-    "table of + - * / abs floor ceiling is exact-in => exact-out, Real-in => Real-out; (no-silent-inexact) exact values "
-    "are converted to the real type only in the promotion arms that have a Real operand and in the transcendental "
-    "functions; (range) interval analysis proves that for numerators and denominators below 2^15 in magnitude no i32 "
-    "operation of the exact arms can overflow; (never-wrong-exact) census of every i32 operation on an exact path that "
-    "is a bare operator (panics in a checked build, wraps in an unchecked one) instead of an overflow-aware form; "
-    "(zero) every exact division tests each divisor factor for zero first; (denominator-sign) sign analysis: given "
-    "positive operand denominators every ratio built has a positive denominator, which the sign-naive consumers "
-    "(comparison, floor, ceiling, printing) rely on; (rounding) symbolic evaluation of the ratio arm of floor and ceiling: every "
-    "path's result formula is the greatest integer not above / least integer not below a/b on all sign and divisibility classes "
-    "(a in -7..7, b in 1..4); (literal) the u32 denominator of a ratio literal is range-checked "
-    "before it becomes an i32.")
+    'Abstract interpretation of the loop-free numeric code in values.rs: (contagion) the 3x3 promotion table of '
+    'upcast_oprands is the lattice join Integer < Rational < Real with every payload in its place, and the '
+    'result-kind table of + - * / abs floor ceiling is exact-in => exact-out, Real-in => Real-out; (no-silent- '
+    'inexact) exact values are converted to the real type only in the promotion arms that have a Real operand and '
+    'in the transcendental functions; (range) interval analysis proves that for numerators and denominators below '
+    '2^15 in magnitude no i32 operation of the exact arms can overflow; (never-wrong-exact) census of every i32 '
+    'operation on an exact path that is a bare operator (panics in a checked build, wraps in an unchecked one) '
+    'instead of an overflow-aware form; (zero) every exact division tests each divisor factor for zero first; '
+    '(denominator-sign) sign analysis: given positive operand denominators every ratio built has a positive '
+    'denominator, which the sign-naive consumers (comparison, floor, ceiling, printing) rely on; (rounding) '
+    "symbolic evaluation of the ratio arm of floor and ceiling: every path's result formula is the greatest "
+    'integer not above / least integer not below a/b on all sign and divisibility classes (a in -7..7, b in '
+    '1..4); (literal) the u32 denominator of a ratio literal is range-checked before it becomes an i32. (folds) '
+    'the n-ary + - * / on 0..4 opaque numbers are left folds of the binary operation in argument order, (- a) = 0 '
+    '- a, (/ a) = 1 / a; every function that takes numbers and builds a ratio is an entry of the denominator '
+    'analysis.')
 NOT_DECIDED = ("numerical correctness of the formulas of + - * / themselves (only their kinds, ranges and zero guards), and the binary32 "
                "result of inexact operations; beyond 2^15 only overflow-safety is judged, not value equality.")
 
